@@ -29,6 +29,7 @@ F16 = "pchip-nan-gradient"
 ENERGY = "energy-gradient"
 INPLACE = "intermediate-observable-gradient"
 ZEROCOT = "zero-cotangent-raises"
+FLATWF = "flat-waveform-gradient-wrong"
 HEADER_AD = """From Coq Require Import ZArith List PrimFloat.
 Import ListNotations.
 From EV Require Import Base.Arith Model.Pchip Model.PchipAD.
@@ -708,7 +709,8 @@ def seq_loss(spec, params, krylov_tolerance=1e-10):
     import torch
     from pulser import Pulse, Register, Sequence
     from pulser.devices import MockDevice
-    from pulser.waveforms import BlackmanWaveform, ConstantWaveform, RampWaveform
+    from pulser.waveforms import (BlackmanWaveform, ConstantWaveform, CustomWaveform, InterpolatedWaveform,
+                                  RampWaveform)
     from emu_sv import Occupation, SVBackend, SVConfig
 
     n = spec["n"]
@@ -731,6 +733,11 @@ def seq_loss(spec, params, krylov_tolerance=1e-10):
                 return BlackmanWaveform(T, next(p))
             if kind == "zero":  # a literal zero amplitude (detuning-only pulse)
                 return ConstantWaveform(T, 0.0)
+            if kind == "custom":  # one parameter per sample
+                return CustomWaveform(torch.stack([torch.as_tensor(next(p), dtype=torch.float64) for _ in range(T)]))
+            if kind == "interp":  # three interpolation values
+                return InterpolatedWaveform(T, torch.stack([torch.as_tensor(next(p), dtype=torch.float64)
+                                                            for _ in range(3)]))
             raise ValueError(kind)
 
         amp = wf(seg["amp"])
@@ -767,14 +774,61 @@ def gen_seq_spec(rng, lead=None):
             "params": vals, "weights": [rng.uniform(0.3, 1.0) for _ in range(n)]}
 
 
+NPAR = {"const": 1, "ramp": 2, "blackman": 1, "zero": 0, "interp": 3}
+
+
+def gen_seq_flat_spec(rng, variant):
+    """Signals that happen to be flat, differentiated w.r.t. SHAPE parameters (the level is shared by all samples, the
+    derivative w.r.t. one shape parameter is not): ramp with start == stop, custom waveform with equal / zero samples,
+    interpolated waveform with equal values, a sequence whose detuning never changes."""
+    n = rng.choice([1, 2, 2, 3])
+    T = rng.choice([16, 20, 24])
+    lvl_a, lvl_d = rng.uniform(1.0, 8.0), rng.uniform(-6.0, 6.0)
+    segs, vals = [], []
+
+    def add(amp, det, pa, pd, T_=T):
+        segs.append({"T": T_, "amp": amp, "det": det, "phase": 0.0})
+        vals.extend(pa)
+        vals.extend(pd)
+
+    if variant == "ramp-flat-amp":
+        add("ramp", "ramp", [lvl_a, lvl_a], [lvl_d, -lvl_d])
+    elif variant == "ramp-flat-det":
+        add("const", "ramp", [lvl_a], [lvl_d, lvl_d])
+    elif variant == "ramp-flat-both":
+        add("ramp", "ramp", [lvl_a, lvl_a], [lvl_d, lvl_d])
+    elif variant == "custom-equal":
+        add("custom", "custom", [lvl_a] * T, [lvl_d] * T)
+    elif variant == "custom-zero-det":
+        add("const", "custom", [lvl_a], [0.0] * T)
+    elif variant == "interp-equal":
+        add("interp", "interp", [lvl_a] * 3, [lvl_d] * 3, T_=40)
+    elif variant == "constant-detuning-sequence":  # two pulses, amplitude varies, detuning is one level throughout
+        add("ramp", "ramp", [lvl_a, 0.5 * lvl_a], [lvl_d, lvl_d], T_=40)
+        add("const", "ramp", [0.5 * lvl_a], [lvl_d, lvl_d], T_=40)
+    else:
+        raise ValueError(variant)
+    return {"kind": "seq", "flat": variant, "n": n, "spacing": rng.choice([6.0, 7.5, 9.0]), "segments": segs,
+            "dt": rng.choice([2, 4]) if T <= 24 and "sequence" not in variant and variant != "interp-equal" else 10,
+            "params": vals, "weights": [rng.uniform(0.3, 1.0) for _ in range(n)]}
+
+
+# (pulser's InterpolatedWaveform goes through numpy/scipy and cannot carry gradients; flat interpolated signals are
+# covered by the adapter-level tie below)
+SEQ_FLAT = ("ramp-flat-amp", "ramp-flat-det", "ramp-flat-both", "custom-equal", "custom-zero-det",
+            "constant-detuning-sequence")
+
+
 def seq_grad_check(ctx, spec):
     """Pulser sequence with torch waveform parameters: gradient at krylov tolerance 1e-10 and at TIGHT_TOL; the tight
     one against central differences of the emulated result, the two against each other within param_grad_bound."""
     import torch
 
     kinds = sorted({s["amp"] for s in spec["segments"]} | {s["det"] for s in spec["segments"]})
+    wrong_key = FLATWF if spec.get("flat") else "seq-gradient-wrong"
     nsteps = -(-sum(s["T"] for s in spec["segments"]) // spec["dt"])
-    summary = {"n": spec["n"], "segments": len(spec["segments"]), "kinds": kinds, "steps": nsteps}
+    summary = {"n": spec["n"], "segments": len(spec["segments"]), "kinds": kinds, "steps": nsteps,
+               "flat": spec.get("flat")}
     gs = {}
     for tol in (1e-10, TIGHT_TOL):
         params = [torch.tensor(v, dtype=torch.float64, requires_grad=True) for v in spec["params"]]
@@ -806,12 +860,15 @@ def seq_grad_check(ctx, spec):
         k = max(range(len(g)), key=lambda m: abs(g0[m] - g[m]))
         ctx.violation(f"gradient w.r.t. waveform parameter {k} is {g0[k]!r} at krylov tolerance 1e-10 but {g[k]!r} at "
                       f"{TIGHT_TOL:g}: difference {d0:.3g} > allowed {lim0:.3g} ({nsteps} steps)",
-                      {"case": spec, "finding_key": "seq-gradient-wrong", "kind": "seq", "param": k})
+                      {"case": spec, "finding_key": wrong_key, "kind": "seq", "param": k})
         summary["outcome"] = "mismatch"
         return summary
     lim = param_grad_bound(TIGHT_TOL, nsteps) * S + FD_RTOL * S + FD_ATOL
     with torch.no_grad():
-        for k in range(len(g)):
+        probe = list(range(len(g)))
+        if len(probe) > 10:  # one parameter per sample: the ends, and a random subset
+            probe = sorted(set([0, 1, len(g) - 1] + ctx.rng.sample(probe, 7)))
+        for k in probe:
             eps = 1e-4
             vals = []
             for sgn in (+1, -1):
@@ -824,11 +881,116 @@ def seq_grad_check(ctx, spec):
             if abs(fd - g[k]) > lim:
                 ctx.violation(f"gradient w.r.t. waveform parameter {k} is {g[k]!r} but the central difference is {fd!r} "
                               f"(krylov tolerance {TIGHT_TOL:g}, allowed {lim:.3g})",
-                              {"case": spec, "finding_key": "seq-gradient-wrong", "kind": "seq", "param": k})
+                              {"case": spec, "finding_key": wrong_key, "kind": "seq", "param": k})
                 summary["outcome"] = "mismatch"
                 return summary
     summary["outcome"] = "ok"
     return summary
+
+
+# =====================================================================================================
+# 5. adapter level: d(midpoint drive) / d(sample k) of _extract_omega_delta_phi against the PCHIP AD model
+class _GradSamples:
+    """Duck-typed pulser SequenceSamples (the function reads max_duration and to_nested_dict only)."""
+
+    def __init__(self, T, sig):
+        self.max_duration = T
+        self._d = {"q0": sig}
+
+    def to_nested_dict(self, all_local=False, samples_type="array"):
+        return {"Local": {"ground-rydberg": self._d}}
+
+
+def gen_signal(rng, T, positive):
+    kind = rng.choice(["flat", "flat", "zero", "ramp", "pulse", "gauss", "steps", "interp-equal"])
+    if kind in ("flat", "interp-equal"):   # e.g. a ramp with start == stop, equal interpolation values
+        y = [rng.uniform(0.5, 9.0) if positive else rng.uniform(-6, 6)] * T
+    elif kind == "zero":
+        y = [0.0] * T
+    elif kind == "ramp":
+        a, b = (rng.uniform(0, 9), rng.uniform(0, 9)) if positive else (rng.uniform(-6, 6), rng.uniform(-6, 6))
+        y = [a + (b - a) * i / max(T - 1, 1) for i in range(T)]
+    elif kind == "pulse":
+        a, b = sorted(rng.sample(range(T + 1), 2))
+        top = rng.uniform(0.5, 9.0)
+        y = [top if a <= i < b else 0.0 for i in range(T)]
+    elif kind == "steps":
+        y, cur = [], rng.uniform(0, 5)
+        for _ in range(T):
+            if rng.random() < 0.25:
+                cur = rng.uniform(0, 5) if positive else rng.uniform(-5, 5)
+            y.append(cur)
+    else:
+        y = [abs(rng.gauss(0, 3)) if positive else rng.gauss(0, 3) for _ in range(T)]
+    return kind, y
+
+
+def gen_adapter_case(rng):
+    dt = rng.choice([1, 2, 3, 4, 5, 10])
+    T = dt * rng.randint(2, max(2, 40 // dt))
+    tt = [float(t) for t in range(0, T, dt)] + [float(T)]
+    kinds, sig = {}, {}
+    for name in ("amp", "det", "phase"):
+        kinds[name], sig[name] = gen_signal(rng, T, positive=(name == "amp"))
+    return {"kind": "adapter", "T": T, "dt": dt, "tt": tt, "sig": sig, "sigkinds": kinds,
+            "w": [[rng.choice([1.0, -0.5, rng.gauss(0, 1)]) for _ in range(len(tt) - 1)] for _ in range(3)]}
+
+
+def adapter_impl(case):
+    import inspect
+
+    import torch
+    from emu_base.pulser_adapter import _extract_omega_delta_phi
+
+    sig = {k: torch.tensor(v, dtype=torch.float64, requires_grad=True) for k, v in case["sig"].items()}
+    kw = {"all_register_atoms": True} if "all_register_atoms" in inspect.signature(_extract_omega_delta_phi).parameters else {}
+    om, de, ph = _extract_omega_delta_phi(_GradSamples(case["T"], sig), ("q0",), list(case["tt"]), **kw)
+    outs = [om[:, 0].real, de[:, 0].real, ph[:, 0].real]
+    w = [torch.tensor(a, dtype=torch.float64) for a in case["w"]]
+    loss = sum((o * a).sum() for o, a in zip(outs, w))
+    grads = torch.autograd.grad(loss, [sig["amp"], sig["det"], sig["phase"]], allow_unused=True)
+    return ([[float(a) for a in o.detach()] for o in outs],
+            [[0.0] * case["T"] if g is None else [float(a) for a in g] for g in grads])
+
+
+def adapter_exprs(case, fwd, fixed):
+    xs = L([float(i) for i in range(case["T"])])
+    tt = case["tt"]
+    qs = L([0.5 * (tt[i] + tt[i + 1]) for i in range(len(tt) - 1)])
+    ex = []
+    for j, name in enumerate(("amp", "det", "phase")):
+        w = list(case["w"][j])
+        if name == "amp":  # torch.where(x > 0, x, 0): no cotangent into the clamped midpoints
+            w = [a if v > 0 else 0.0 for a, v in zip(w, fwd[0])]
+        ex.append(f"pchip_ad_case float_arith {'true' if fixed else 'false'} {xs} {L(case['sig'][name])} {qs} {L(w)}")
+    return ex
+
+
+def adapter_oracle(ctx, case, fwd, grads):
+    """Independent of the model: a flat signal's level derivative is spread over the samples (sum of the Jacobian row
+    over samples = 1 for every unclamped midpoint), so sum_k grad_k = sum of the (unclamped) weights; and no single
+    sample of a flat signal may absorb the whole derivative when more than one midpoint lies inside the grid."""
+    for j, name in enumerate(("amp", "det", "phase")):
+        y, g = case["sig"][name], grads[j]
+        if not all(math.isfinite(a) for a in g):
+            ctx.violation(f"gradient of the midpoint {name} w.r.t. the Pulser samples is not finite",
+                          {"case": case, "finding_key": "adapter-gradient-not-finite", "kind": "adapter"})
+            return
+        w = [a if (name != "amp" or v > 0) else 0.0 for a, v in zip(case["w"][j], fwd[j])]
+        if abs(sum(g) - sum(w)) > 1e-9 * max(1.0, sum(abs(a) for a in w)):
+            ctx.violation(f"d(midpoint {name})/d(samples): the gradient along 'all samples together' is {sum(g)!r}, "
+                          f"expected {sum(w)!r} (PCHIP reproduces a level shift exactly)",
+                          {"case": case, "finding_key": "adapter-gradient-wrong", "kind": "adapter"})
+            return
+        flat = all(a == y[0] for a in y)
+        if flat and len(w) >= 2 and sum(1 for a in w if a != 0) >= 2 and case["dt"] < case["T"]:
+            nz = [k for k, a in enumerate(g) if a != 0]
+            if len(nz) <= 1:
+                ctx.violation(f"flat {name} signal ({case['sigkinds'][name]}, {len(y)} equal samples): the whole gradient "
+                              f"of {len(w)} midpoints sits on sample {nz} (grad[0] = {g[0]!r}); the midpoints at "
+                              f"t = {[0.5 * (case['tt'][i] + case['tt'][i + 1]) for i in range(min(3, len(w)))]}... depend "
+                              f"on the samples next to them", {"case": case, "finding_key": FLATWF, "kind": "adapter"})
+                return
 
 
 # =====================================================================================================
@@ -878,6 +1040,8 @@ def run(ctx):
     for c in corpus:
         if c["kind"].startswith("corpus:pchip"):
             pchip_cases.append(dict(c))
+        elif c["kind"].startswith("corpus:adapter"):
+            pass  # run with the adapter-level tie below
         else:
             s = run_case(ctx, c)
             ctx.count_case({"corpus": c["kind"], "outcome": s.get("outcome")}, True)
@@ -933,6 +1097,61 @@ def run(ctx):
     ctx.obligation("correspondence:Model.PchipAD(float_arith, variant from the source)==torch.autograd.grad through "
                    "PCHIP1D (forward bit-exact; nan/inf/finite exact; values 1e-9)", ad_ok, ad_detail,
                    kind="correspondence")
+
+    # ---- adapter level: gradients of _extract_omega_delta_phi w.r.t. the Pulser samples vs the PCHIP AD model ----
+    ad_cases = [dict(c) for c in corpus if c["kind"].startswith("corpus:adapter")]
+    ad_cases += [gen_adapter_case(rng) for _ in range(ctx.n(40, 300))]
+    ada_ok, ada_detail = model_ok, "" if model_ok else "model does not build"
+    try:
+        ev = common.CoqEval("C30adapter", HEADER_AD)
+        pend, sk = [], {}
+        for c in ad_cases:
+            fwd, gr = adapter_impl(c)
+            adapter_oracle(ctx, c, fwd, gr)
+            for v in c["sigkinds"].values():
+                sk[v] = sk.get(v, 0) + 1
+            ctx.count_case({"kind": "adapter", "T": c["T"], "dt": c["dt"], "signals": c["sigkinds"]}, nontrivial=True)
+            if model_ok:
+                pend.append((c, fwd, gr, [ev.add(e) for e in adapter_exprs(c, fwd, fixed)]))
+        ctx.extra["adapter_signal_kinds"] = dict(sorted(sk.items()))
+        if model_ok:
+            outs = ev.run(shard=ctx.n(20, 80))
+            ncmp = 0
+            for c, fwd, gr, idxs in pend:
+                for j, (name, ix) in enumerate(zip(("amp", "det", "phase"), idxs)):
+                    code, (mo, mg) = parse(outs[ix])
+                    if name == "amp":
+                        mo = [a if a > 0 else 0.0 for a in mo]
+                    why = None
+                    if code != 0:
+                        why = f"model rejected the grid (code {code})"
+                    elif [bits(a + 0.0) for a in mo] != [bits(a + 0.0) for a in fwd[j]]:
+                        why = "forward midpoint values differ (bit-exact comparison)"
+                    elif [cls(a) for a in mg] != [cls(a) for a in gr[j]]:
+                        why = "nan/inf/finite classification of the gradient differs"
+                    else:
+                        sc = max([1.0] + [abs(a) for a in gr[j] if math.isfinite(a)])
+                        bad = [k for k, (a, b) in enumerate(zip(mg, gr[j])) if math.isfinite(b) and abs(a - b) > 1e-9 * sc]
+                        if bad:
+                            why = (f"d(midpoints)/d(sample {bad[0]}) is {gr[j][bad[0]]!r} in the adapter but {mg[bad[0]]!r} in "
+                                   f"the PCHIP AD model")
+                    ncmp += len(gr[j])
+                    if why and ada_ok:
+                        ada_ok = False
+                        ada_detail = (f"{name} ({c['sigkinds'][name]}): {why}; T={c['T']} dt={c['dt']} "
+                                      f"samples={c['sig'][name][:6]}")
+                        ctx.extra["first_adapter_disagreement"] = {"case": c, "signal": name, "why": why}
+                        ctx.violation(f"_extract_omega_delta_phi: gradient of the midpoint {name} w.r.t. the Pulser samples "
+                                      f"differs from the reverse-mode gradient of PCHIP1D(arange(T), samples)(t_mid): {why} "
+                                      f"(signal kind {c['sigkinds'][name]}, T={c['T']}, dt={c['dt']})",
+                                      {"case": c, "kind": "adapter",
+                                       "finding_key": FLATWF if all(a == c["sig"][name][0] for a in c["sig"][name])
+                                       else "adapter-gradient-wrong"})
+            ctx.extra["adapter_ad_tie"] = {"cases": len(ad_cases), "gradient_entries_compared": ncmp}
+    except (common.CoqEvalError, ValueError) as ex:
+        ada_ok, ada_detail = False, str(ex)[:2000]
+    ctx.obligation("correspondence:d(_extract_omega_delta_phi midpoints)/d(Pulser samples)==Model.PchipAD on the adapter's "
+                   "grid (forward bit-exact; nan/inf/finite exact; values 1e-9)", ada_ok, ada_detail, kind="correspondence")
 
     # ---- DHD*Sparse: exact tie + algebraic oracle ----------------------------------------------------------
     dhd_cases = []
@@ -1009,6 +1228,7 @@ def run(ctx):
     seq_summ = []
     seq_specs = [gen_seq_spec(rng, lead=("delay", "detuning_only")[i % 2]) for i in range(ctx.n(4, 16))]
     seq_specs += [gen_seq_spec(rng) for _ in range(ctx.n(4, 30))]
+    seq_specs += [gen_seq_flat_spec(rng, SEQ_FLAT[i % len(SEQ_FLAT)]) for i in range(ctx.n(7, 28))]
     for spec in seq_specs:
         s = seq_grad_check(ctx, spec)
         seq_summ.append(s)
@@ -1026,7 +1246,12 @@ def run(ctx):
                 "atoms, 2..4 steps, smooth random drives with flat/zero segments, phases zero / non-zero / mixed, "
                 "random or default initial state, losses occupation / linear in state / fidelity / energy, FD on a "
                 "random subset of entries of every block incl. the last step. seq: 1..3 atoms, 1..3 pulses of "
-                "constant / ramp / blackman waveforms with torch parameters. one PRNG; distinct by input hash")
+                "constant / ramp / blackman waveforms with torch parameters, sequences starting with a delay or a "
+                "detuning-only pulse, and flat signals differentiated w.r.t. shape parameters (ramp with start == stop, "
+                "custom waveform with equal / zero samples, constant detuning over a whole sequence). adapter: T = 2..40 "
+                "samples, dt 1..10, amp/det/phase signals flat / zero / ramp / pulse / steps / gauss, random weights on the "
+                "midpoints. sv-annihilation: H psi = 0 first steps, H = 0 steps, eigenvector initial states, basis "
+                "cotangents, all-idle runs. one PRNG; distinct by input hash")
     ctx.trusted_base += ["hand-written models coq/Model/PchipAD.v (tape + VJP rules) and coq/Model/SvGrad.v, validated "
                          "against torch on every run", "Coq PrimFloat = IEEE binary64 = torch float64 elementwise kernels",
                          "torch's VJP formulas for add/sub/mul/div/where as transcribed in Model/PchipAD.v (validated by "
@@ -1052,7 +1277,8 @@ def run(ctx):
                         "all branch decisions fixed within the FD step",
                         "gradients w.r.t. the knots x and the query points are outside (the adapter uses a fixed grid)",
                         "pulser's StateResult deep-copies the state and cannot be differentiated; the final state is read "
-                        "from SVBackendImpl.state"]
+                        "from SVBackendImpl.state", "pulser's InterpolatedWaveform (scipy) cannot carry gradients; flat "
+                        "interpolated signals are covered at the adapter level (samples requiring grad)"]
 
 
 def replay(ctx, path):
@@ -1065,6 +1291,11 @@ def replay(ctx, path):
         out = dhd_impl(c)
         dhd_oracle(ctx, c, out)
         print("replay dhd case N =", c["N"])
+        return
+    if rp.get("kind") == "adapter":
+        fwd, gr = adapter_impl(c)
+        adapter_oracle(ctx, c, fwd, gr)
+        print("replay adapter case: T =", c["T"], "dt =", c["dt"], "grad amp[:4] =", gr[0][:4], "det[:4] =", gr[1][:4])
         return
     if rp.get("kind") == "pchip":
         c = dict(c, kind="pchip")
